@@ -1,7 +1,7 @@
 #!/usr/bin/env python3
 """Driver: ./check.py <ID> [--tier quick|thorough] | --replay <file>
 Regenerates the encoding from /repo's current working tree on every run (clang -> IR -> engines)."""
-import sys, os, json, time, subprocess, hashlib, importlib, shutil, traceback, resource, signal
+import sys, os, re, json, time, subprocess, hashlib, importlib, shutil, traceback, resource, signal
 from concurrent.futures import ProcessPoolExecutor, as_completed
 
 ROOT = os.path.dirname(os.path.abspath(__file__))
@@ -23,12 +23,41 @@ class Job:
         s.solver_timeout_ms = solver_timeout_ms; s.expect_violation = expect_violation; s.extra_units = list(extra_units)
         s.cbmc = cbmc; s.defines = list(defines); s.findings = list(findings); s.redirect = dict(redirect or {}); s.snippets = dict(snippets or {}); s.stream_sink = stream_sink
 
+def match_brace(src, i):
+    """index of the '}' that closes the '{' at src[i], ignoring braces inside string / character literals and comments"""
+    depth = 0; j = i; n = len(src)
+    while j < n:
+        c = src[j]
+        if c == '/' and src[j:j + 2] == '//':
+            j = src.find('\n', j); j = n if j < 0 else j; continue
+        if c == '/' and src[j:j + 2] == '/*':
+            j = src.find('*/', j + 2); j = n if j < 0 else j + 2; continue
+        if c == '"' or c == "'":
+            if c == '"' and j >= 1 and src[j - 1] == 'R':            # raw string R"delim( ... )delim"
+                mm = re.match(r'"([^()\\ ]{0,16})\(', src[j:])
+                if mm:
+                    end = src.find(')' + mm.group(1) + '"', j); j = n if end < 0 else end + len(mm.group(1)) + 2; continue
+            q = c; j += 1
+            while j < n and src[j] != q:
+                if src[j] == '\\': j += 1
+                j += 1
+            j += 1; continue
+        if c == '{': depth += 1
+        elif c == '}':
+            depth -= 1
+            if depth == 0: return j
+        j += 1
+    return -1
+
 def extract_function(path, name):
     """text of the definition of function `name` in a /repo source file (from the start of its declaration line to the matching
     closing brace) - used to lift small file-static helpers out of translation units that are too large to include"""
     src = open(path).read()
     import re
-    for m in re.finditer(r'^[^\n;{}#]*\b' + re.escape(name) + r'\s*\(', src, re.M):
+    # definitions at namespace scope (declaration line starts in column 0) are preferred over indented matches (in-class definitions,
+    # but also call sites such as `if (auto e = name(...)) {`)
+    cands = list(re.finditer(r'^[^\s;{}#][^\n;{}#]*\b' + re.escape(name) + r'\s*\(', src, re.M)) + list(re.finditer(r'^[^\n;{}#]*\b' + re.escape(name) + r'\s*\(', src, re.M))
+    for m in cands:
         # skip the parameter list (it may contain braces: "hint = {}"), then the body starts at the next '{'
         depth_p = 1; q = m.end()
         while q < len(src) and depth_p:
@@ -38,13 +67,8 @@ def extract_function(path, name):
         i = src.find('{', q)
         semi = src.find(';', q)
         if i < 0 or (0 <= semi < i): continue          # a declaration or a call, not a definition
-        depth = 0; j = i
-        while j < len(src):
-            if src[j] == '{': depth += 1
-            elif src[j] == '}':
-                depth -= 1
-                if depth == 0: return src[m.start():j + 1]
-            j += 1
+        j = match_brace(src, i)
+        if j >= 0: return src[m.start():j + 1]
     raise RuntimeError('function %s not found in %s' % (name, path))
 
 def extract_block(path, start_regex):
@@ -62,16 +86,11 @@ def extract_block(path, start_regex):
             q += 1
         start = q
     i = src.find('{', start - 1 if src[start - 1] == '{' else start)
-    depth = 0; j = i
-    while j < len(src):
-        if src[j] == '{': depth += 1
-        elif src[j] == '}':
-            depth -= 1
-            if depth == 0:
-                end = j + 1
-                if src[end:end + 1] == ';': end += 1
-                return src[m.start():end]
-        j += 1
+    j = match_brace(src, i)
+    if j >= 0:
+        end = j + 1
+        if src[end:end + 1] == ';': end += 1
+        return src[m.start():end]
     raise RuntimeError('unbalanced braces after %r in %s' % (start_regex, path))
 
 def workdir():
@@ -239,7 +258,7 @@ def check(pid, tier, seed, wd, only, t0):
                 alljobs.append(jj)
     if only: alljobs = [j for j in alljobs if only in j.name]
     # compile
-    units = {}
+    units = {}; auto_lifted = []
     try:
         for j in alljobs:
             for macro, (relpath, fname) in j.snippets.items():
@@ -281,22 +300,29 @@ def check(pid, tier, seed, wd, only, t0):
             for u in [j.unit] + j.extra_units:
                 key = (u, tuple(j.defines))
                 if key in units: continue
-                for attempt in range(6):
+                for attempt in range(16):
                     try:
                         units[key] = compile_unit(u, wd, j.defines); break
                     except RuntimeError as e:
-                        # a lifted function may call a file-static helper that a refactor introduced: lift the helper too and retry
+                        # a lifted function may call a file-static helper that a refactor introduced: lift the helper too and retry.
+                        # Helpers found later are dependencies of those found earlier, so they go to the front of SNIP_AUTO.
                         import re as _re
                         missing = _re.findall(r"use of undeclared identifier '([A-Za-z_][A-Za-z0-9_]*)'", str(e))
                         srcs = sorted({rel for rel, _ in j.snippets.values()})
                         added = False
                         for name in dict.fromkeys(missing):
+                            have = [x for x in auto_lifted if x[0] == name]
+                            if have:
+                                if auto_lifted[0][0] != name: auto_lifted.remove(have[0]); auto_lifted.insert(0, have[0]); added = True
+                                continue
                             for rel in srcs:
                                 try: body = extract_function(os.path.join(REPO, rel), name)
                                 except RuntimeError: continue
-                                with open(os.path.join(wd, 'snip_AUTO.inc'), 'a') as f: f.write('// auto-lifted from %s\n' % rel + body + '\n')
+                                auto_lifted.insert(0, (name, '// auto-lifted from %s\n' % rel + body + '\n'))
                                 added = True; break
-                        if not added or attempt == 5: raise
+                        if not added or attempt == 15: raise
+                        with open(os.path.join(wd, 'snip_AUTO.inc'), 'w') as f:
+                            f.write('// helpers lifted automatically because lifted code refers to them\n' + ''.join(b for _, b in auto_lifted))
     except RuntimeError as e:
         # the harness no longer compiles against /repo (an internal name it reaches into changed): no verdict, never a VIOLATION
         print('INCONCLUSIVE harness does not compile against the current tree: %s' % str(e)[:4000])
